@@ -156,7 +156,7 @@ func ruleSchedShard(r *core.Run) {
 // ---------------------------------------------------------------- C11
 
 func checkC11(r *core.Run) {
-	r.Explanation = "C11 (structural clauses only): schedule coupling — wherever a shard's paid period starts or is rotated, every success path schedules its release at that shard's own CreatedAt+Duration; release capability — completed shards are released/removed only from the expiry handler, the timeout handler (non-completed shards), Terminate, Complete (migration, force-push), Cancel and the v2 migration (Renew appears only through the path-insensitive call graph and is tabled with that reason); the model is deleted only by Terminate and the model end-blocker; the schedule consumers process every listed id and then drop the entry; the model's lifetime is extended to the same end height that is scheduled for the shard. 'Exactly that many blocks later' and exactly-once as temporal facts are not decided."
+	r.Explanation = "C11 (structural clauses only): schedule coupling — wherever a shard's paid period starts or is rotated, every success path schedules its release at that shard's own CreatedAt+Duration; release capability — completed shards are released/removed only from the expiry handler, the timeout handler (non-completed shards), Terminate, Complete (migration, force-push), Cancel and the v2 migration (Renew appears only through the path-insensitive call graph and is tabled with that reason); the model is deleted only by Terminate and the model end-blocker; the schedule consumers process every listed id and then drop the entry; the model's lifetime is extended to the same end height that is scheduled for the shard; an order and its model version are dropped by CancelOrder only while the order is not Completed. 'Exactly that many blocks later' and exactly-once as temporal facts are not decided."
 	r.Rule("G-retain: model.CancelOrder (removes the order, rolls the data model back or deletes it) is reached only under order.Status != Completed / == Pending — once a shard has been completed for a paid term the order and its model are not dropped by a cancellation or by the timeout handler")
 	ruleRetainCompleted(r, "G-retain")
 	r.Rule("T-sched-shard: store to Shard.CreatedAt/Duration => SetExpiredShardBlock(s.Id, s.CreatedAt+s.Duration) on every success path")
